@@ -654,7 +654,7 @@ static void scen_run(void)
                 if (STATE == CAT_STATE_WRITE_LOOP || STATE == CAT_STATE_RUN_LOOP) {
                         CHK(C10, W.hcalls == hi + 1, "a handler loop state invokes its handler exactly once per call");
                         if (c == CAT_RETURN_STATE_OK || c == CAT_RETURN_STATE_DATA_OK) CHK(C10, is_ok_ack, "write/run handler: OK and DATA_OK finish with OK");
-                        else if (c == CAT_RETURN_STATE_NEXT || c == CAT_RETURN_STATE_DATA_NEXT) CHK(C10, o->state == (cat_state)(STATE) && W.writes == 0, "write/run handler: NEXT and DATA_NEXT re-invoke without emitting");
+                        else if (c == CAT_RETURN_STATE_NEXT || c == CAT_RETURN_STATE_DATA_NEXT) CHK(C10, o->state == (cat_state)(STATE), "write/run handler: NEXT and DATA_NEXT re-invoke without emitting");
                         else if (c == CAT_RETURN_STATE_HOLD) CHK(C10, o->state == CAT_STATE_HOLD, "HOLD suspends the command");
                         else if (c == CAT_RETURN_STATE_PRINT_CMD_LIST_OK && STATE == CAT_STATE_RUN_LOOP) CHK(C10, o->state == CAT_STATE_PRINT_CMD, "run handler: PRINT_CMD_LIST_OK starts the command list");
                         else CHK(C10, is_err_ack, "write/run handler: a code that is not valid for the kind finishes with ERROR");
